@@ -209,16 +209,25 @@ def anns_true(anns, den):
 
 
 def getitem_attribution(case, ans):
-    """-> (clauses, unexplained).  The recorded clauses of the INDEXING step that explain, entry by entry, where the code
-    model's answer differs from NumPy indexing of the represented matrix (`den`, printed by the driver), and a description
-    of the part of the difference that no clause explains (None if everything is explained).
+    """-> (clauses, unexplained).  The recorded clauses that explain, ENTRY BY ENTRY, where the code model's answer differs
+    from NumPy indexing of the represented matrix (`den`, printed by the driver), and a description of the part of the
+    difference that no clause explains (None if everything is explained).  An unexplained part is a VIOLATION, whatever
+    clauses the operand's tree carries.
 
     * `getitem-array-pair-outer`: two integer ARRAYS; NumPy pairs them (a vector), the code returns an operator.  Attributed
-      only if that operator IS the outer (`np.ix_`) selection `den[ia][:, ja]` -- shape and entries.
+      only if that operator has the shape of the outer (`np.ix_`) selection `den[ia][:, ja]`; its entries are attributed as
+      below.
     * `sliced-repeated-index`: the returned `Sliced` operator repeats a resolved index.  Attributed only to entries in a
-      repeated row / column position: an entry that differs from the outer selection anywhere else is unexplained."""
-    ids, code, den = case["ids"], ans["code"], ans.get("den")
+      repeated row / column position.
+    * tree-level clauses (`Op.clauses` of the operand, `ans["clauses"]`): the operand's OWN code-model dense matrix
+      (`codeDense` = `Op.td`, printed by the driver) differs from `den`.  Attributed only to an entry (p, q) of the answer whose
+      source entry differs, `codeDense[ia[p]][ja[q]] != den[ia[p]][ja[q]]`, and which inherits exactly that value; for an
+      answer that is not an operator (scalar, vector, error) only if the whole answer IS NumPy indexing of `codeDense`
+      (`tdIndex`; or of `codeDenseR` = `I @ A`, `tdIndexR`: rows are read by `e_i @ A`) and that matrix differs from `den`.
+    An entry that differs from the outer selection anywhere else is unexplained."""
+    ids, code, den, td = case["ids"], ans["code"], ans.get("den"), ans.get("codeDense")
     rows, cols = ans.get("rows", 0), ans.get("cols", 0)
+    tree = list(ans.get("clauses", []))
 
     def positions(j, n):
         if "a" in j:
@@ -228,8 +237,18 @@ def getitem_attribution(case, ans):
         if "s" in j:
             return list(range(*slice(*j["s"]).indices(n)))
         return None
-    if len(ids) != 2 or code.get("kind") != "op" or den is None:
-        return [], "the answer of the code model is not an operator selected by two index objects"
+    if den is None or td is None:
+        return [], "the driver did not print den / codeDense"
+    if code.get("kind") != "op" or len(ids) != 2:
+        # scalar / vector / error answers: the indexing step itself must be NumPy indexing of the operand's own dense matrix
+        # (`codeDense` = A @ I, what columns are read from, or `codeDenseR` = I @ A, what rows are read from)
+        for dk, ik in (("codeDense", "tdIndex"), ("codeDenseR", "tdIndexR")):
+            ti, dm = ans.get(ik) or {}, ans.get(dk)
+            keys = [k for k in ("kind", "value", "rows", "cols") if k in code or k in ti]
+            if tree and dm is not None and dm != den and all(code.get(k) == ti.get(k) for k in keys):
+                return tree, None
+        return [], ("the answer of the code model is not an operator selected by two index objects, and is not NumPy indexing of "
+                    "the operand's own dense matrix under a tree-level clause")
     ia, ja = positions(ids[0], rows), positions(ids[1], cols)
     if ia is None or ja is None:
         return [], "an index is out of range, the code model answered with an operator"
@@ -243,28 +262,34 @@ def getitem_attribution(case, ans):
     clauses = []
     if all("a" in j for j in ids):
         clauses.append("getitem-array-pair-outer")
-    if diff:
-        if all(p in dup_r or q in dup_c for (p, q) in diff):
-            clauses.append("sliced-repeated-index")
+    bad, used_dup, used_tree = [], False, False
+    for (p, q) in diff:
+        i, j = ia[p], ja[q]
+        if tree and td[i][j] != den[i][j] and val[p][q] == td[i][j]:
+            used_tree = True
+        elif p in dup_r or q in dup_c:
+            used_dup = True
         else:
-            bad = [pq for pq in diff if pq[0] not in dup_r and pq[1] not in dup_c]
-            return clauses, f"entries {bad[:4]} of the returned operator differ from the outer selection outside repeated indices"
+            bad.append((p, q))
+    if bad:
+        return clauses, (f"entries {bad[:4]} of the returned operator differ from the outer selection outside repeated indices "
+                         "and do not inherit a differing entry of the operand's own dense matrix")
+    if used_dup:
+        clauses.append("sliced-repeated-index")
+    if used_tree:
+        clauses += [c for c in tree if c not in clauses]
     return clauses, None
 
 
 def case_clauses(case, ans):
     """the recorded clauses that explain a `real = code != spec` outcome of this case; [] = none does (a VIOLATION).
-    Tree-level clauses come from the driver (`Op.clauses` of the operator the call is made on); the clauses of the
-    indexing step itself are attributed entry by entry (`getitem_attribution`)."""
-    cl = list(ans.get("clauses", []))
+    Tree-level clauses come from the driver (`Op.clauses` of the operator the call is made on).  For `getitem` EVERY clause -
+    of the indexing step and of the tree - is attributed entry by entry (`getitem_attribution`); a part of the difference
+    that no clause explains makes the case a VIOLATION even when the tree carries a clause."""
     if case["call"] == "getitem":
         got, unexplained = getitem_attribution(case, ans)
-        if unexplained is None:
-            cl += [c for c in got if c not in cl]
-        elif not cl:
-            # no clause of the tree, and the indexing clauses do not explain (all of) the difference
-            return []
-    return cl
+        return [] if unexplained is not None else got
+    return list(ans.get("clauses", []))
 
 
 def observations(case, ans, real):
@@ -284,6 +309,11 @@ def observations(case, ans, real):
             np_dt = promote(ans["dtype"], case["xdt"])
             if np_dt != ans["resdt"]:
                 spec["resdt"] = np_dt
+            # `resdtPromote` (Op.mmDtype = promote_types(A.dtype, X.dtype), the definitional round-2 value) is an independent
+            # specification value of the recursive code model `resdt` (Op.mmDt / Op.rmmDt): equal on every wf tree
+            # (C01_result_dtype_promote), so a disagreement is a code != spec outcome
+            if ans.get("resdtPromote", ans["resdt"]) != ans["resdt"]:
+                spec["resdt"] = ans["resdtPromote"]
     elif call == "tower":
         code = {"v": ans["code"], "rshape": [ans["rrows"], ans["rcols"]], "rdtype": ans["rdtype"],
                 "ranns": ans["ranns"], "skel": ans["skel"], "dtype": ans["dtype"]}
